@@ -45,6 +45,7 @@ package r2
 //@   ensures [sound] result && other.ContainsPoint(Point{px, py}) ==> r.InteriorContainsPoint(Point{px, py})
 
 //@ func (r Rect) Intersects(other Rect) bool
+//@   inline
 //@   fp
 //@   ghost px float64, py float64
 //@   requires vcRectOK(r) && vcRectOK(other) && vcProbe(px, py)
